@@ -40,7 +40,8 @@ func (c18) Components() map[string]string {
 
 var c18EnvFaults = []string{"none", "diff-digest", "diff-size", "diff-mediatype", "drop-annotation", "alter-annotation", "add-annotation", "extra-payload-member", "extra-descriptor-member",
 	"spelling-TargetArtifact", "dup-good-then-bad", "dup-bad-then-good", "null-then-capital", "null-target", "other-format", "type-string-mismatch", "corrupt", "wrong-payload-type", "replay", "garbage", "empty", "corrupt-mid", "corrupt-payload", "rename-annotation", "drop-one-add-two", "recase-annotation-key",
-	"omit-digest", "omit-size", "omit-mediatype", "omit-annotations", "empty-target", "empty-payload"}
+	"omit-digest", "omit-size", "omit-mediatype", "omit-annotations", "empty-target", "empty-payload",
+	"payload-type-recased", "payload-type-with-parameter", "payload-type-trailing-space", "payload-type-v2"}
 var c18RawFaults = []string{"none", "describe-keyid", "describe-keyspec-garbage", "describe-keyspec-mismatch", "sign-keyid", "chain-other-key", "chain-empty", "chain-garbage", "sig-corrupt", "sig-other-payload", "sig-empty", "chain-reordered"}
 
 // op: I = [task, blob(0/1), key idx, format, envelope capability(0/1), fault idx, nannots]
@@ -61,7 +62,7 @@ func (c18) Gen(r *rand.Rand, tier string, idx int) *core.Plan {
 		for i, n := 0, 1+r.IntN(3); i < n; i++ {
 			fault := int64(0)
 			if r.IntN(4) != 0 {
-				fault = int64(1 + r.IntN(31))
+				fault = int64(1 + r.IntN(35))
 			}
 			p.Ops = append(p.Ops, core.Op{Task: t, Kind: "sign", I: []int64{int64(r.IntN(2)), int64(r.IntN(2)), fault, int64(r.IntN(3)), int64(r.IntN(1000))}})
 		}
@@ -250,6 +251,14 @@ func (l c18) Exec(env *core.Env) *core.Result {
 			}
 		case "wrong-payload-type":
 			q.PayloadType = "application/vnd.example.other+json"
+		case "payload-type-recased": // spellings of the payload type that are not the payload type
+			q.PayloadType = "Application/VND.CNCF.Notary.Payload.V1+JSON"
+		case "payload-type-with-parameter":
+			q.PayloadType = "application/vnd.cncf.notary.payload.v1+json; charset=utf-8"
+		case "payload-type-trailing-space":
+			q.PayloadType = "application/vnd.cncf.notary.payload.v1+json "
+		case "payload-type-v2":
+			q.PayloadType = "application/vnd.cncf.notary.payload.v2+json"
 		case "replay":
 			if len(prev) > 0 {
 				return prev[len(prev)-1], nil
